@@ -422,6 +422,44 @@ func (h *HistRunner) execSession(i int, op string, args []string, step string) e
 			h.stats["expungeissued"]++
 		}
 		return nil
+	case "ISSUED":
+		// C05: after a barrier, a FETCH/STORE/SEARCH that holds back removals must say [EXPUNGEISSUED], and
+		// only then: run the command, then NOOP at once; NOOP announces a removal iff the command said so.
+		if s.idle || s.selected == "" || s.held {
+			return nil
+		}
+		if err := h.sys.Barrier(); err != nil {
+			return err
+		}
+		kind := args[0]
+		line := strings.Join(args[1:], " ")
+		rep := s.c.Cmd(line)
+		if rep.Err != nil {
+			return rep.Err
+		}
+		h.feed(s, kind, rep.Untagged)
+		if kind == "STORE" && strings.Contains(strings.ToUpper(line), ".SILENT") {
+			for k := range s.mirror.msgs {
+				s.mirror.msgs[k].known = false
+			}
+			s.ev("Z")
+		}
+		said := reExpungeIssued.MatchString(rep.Tagged)
+		before := h.expungeDuring["NOOP"]
+		rep2 := s.c.Cmd("NOOP")
+		if rep2.Err != nil {
+			return rep2.Err
+		}
+		h.feed(s, "NOOP", rep2.Untagged)
+		announced := h.expungeDuring["NOOP"] - before
+		h.stats["issued.checked"]++
+		if said {
+			h.stats["issued.said"]++
+		}
+		if rep.Status == "OK" && said != (announced > 0) {
+			h.violate("C05", fmt.Sprintf("S%d: %s answered %q and the NOOP right after announced %d removals ([EXPUNGEISSUED] must be present iff removals were held back)", s.idx, kind, rep.Tagged, announced))
+		}
+		return nil
 	case "PROBE":
 		if s.idle || s.selected == "" {
 			return nil
@@ -746,8 +784,14 @@ func (h *HistRunner) GenStep(r *Rng, nsess int, profile string) string {
 			return fmt.Sprintf("S%d CMD NOOP NOOP", i)
 		}
 		item := Pick(r, []string{"(FLAGS)", "(UID FLAGS)", "(BODY[])", "(BODY.PEEK[])", "(RFC822.SIZE)", "(UID BODY[TEXT])"})
+		if r.Chance(1, 3) {
+			return fmt.Sprintf("S%d ISSUED FETCH FETCH %s %s", i, set, item)
+		}
 		return fmt.Sprintf("S%d CMD FETCH FETCH %s %s", i, set, item)
 	case c < 88:
+		if r.Chance(1, 3) {
+			return fmt.Sprintf("S%d ISSUED SEARCH SEARCH %s", i, Pick(r, []string{"ALL", "SEEN", "UNSEEN", "DELETED", "FLAGGED"}))
+		}
 		return fmt.Sprintf("S%d CMD SEARCH SEARCH %s", i, Pick(r, []string{"ALL", "SEEN", "UNSEEN", "DELETED", "1:*", "FLAGGED"}))
 	case c < 92:
 		return fmt.Sprintf("S%d CMD NOOP NOOP", i)
